@@ -11,6 +11,7 @@ at db accesses of a running operation.
 from trie import HexaryTrie
 
 from ..core import HarnessError, Violation, deep, fresh, hx, unhx
+from ..simdb import STORE_FLAVOURS
 from ..hgen import HistoryGen, make_pool, make_values, probe_keys, rare_huge
 from ..hworld import HWorld
 from ..models.mpt import BLANK_ROOT, RefMPT
@@ -448,7 +449,7 @@ def generate(rng):
                     seen_in_batch[hh] = seen_in_batch.get(hh, 0) + 1
                 if rng.random() < (0.4 if later else 0.12):
                     c["fr"] = [rng.choice([1, 1, 1, 2, 2, 3, 4, 6]), rng.choice("EOB")]
-    return {"prop": ID, "cfg": {"prune": False, "handles": nh, "cache": cache, "store": rng.choice(["min", "min", "dict"]), "probe": [hx(k) for k in probes]}, "cmds": cmds}
+    return {"prop": ID, "cfg": {"prune": False, "handles": nh, "cache": cache, "store": rng.choice(STORE_FLAVOURS), "probe": [hx(k) for k in probes]}, "cmds": cmds}
 
 
 def explore(rng, st):
